@@ -180,3 +180,63 @@ def words_upto(terms, maxlen, extra=None):
 
 def nontrivial_cfg(spec):
     return len(spec["prods"]) >= 2 and any(len(b) >= 2 for _, b in spec["prods"])
+
+
+def rand_ll1(rng, eps_p=0.3):
+    """Grammars that are LL(1) by construction most of the time: the alternatives of a variable start with distinct terminals;
+    some variables also get an epsilon alternative."""
+    nv = rng.randint(1, 3)
+    nt = rng.randint(2, 3)
+    vs, ts = VARS[:nv], TERMS[:nt]
+    prods = []
+    for v in vs:
+        k = rng.randint(1, nt)
+        for t in rng.sample(ts, k):
+            body = [["T", t]] + [(["V", rng.choice(vs)] if rng.random() < 0.45 else ["T", rng.choice(ts)]) for _ in range(rng.randint(0, 3))]
+            prods.append([v, body])
+        if rng.random() < eps_p:
+            prods.append([v, []])
+    return normalise({"vars": vs, "terms": ts, "start": vs[0], "prods": prods, "profile": "ll1", "names": "plain"})
+
+
+def sample_words(spec, rng, n=12, maxlen=7):
+    """Member words by random expansion (budgeted), plus near-misses (one symbol dropped / appended / replaced)."""
+    by_head = {}
+    for h, b in spec["prods"]:
+        by_head.setdefault(vkey(h), []).append(b)
+    words = []
+    for _ in range(n * 6):
+        form = [["V", spec["start"]]]
+        steps = 0
+        while steps < 40 and any(k == "V" for k, _ in form) and len(form) <= maxlen + 3:
+            i = next(j for j, (k, _) in enumerate(form) if k == "V")
+            alts = by_head.get(vkey(form[i][1]))
+            if not alts:
+                break
+            alts = sorted(alts, key=len) if steps > 12 else alts
+            b = alts[0] if steps > 12 else rng.choice(alts)
+            form = form[:i] + b + form[i + 1:]
+            steps += 1
+        if all(k == "T" for k, _ in form) and len(form) <= maxlen:
+            w = [v for _, v in form]
+            if w not in words:
+                words.append(w)
+        if len(words) >= n:
+            break
+    out = list(words)
+    for w in words[:n]:
+        r = rng.random()
+        if w and r < 0.4:
+            i = rng.randrange(len(w))
+            out.append(w[:i] + w[i + 1:])
+        elif r < 0.7:
+            out.append(w + [rng.choice(spec["terms"])] if spec["terms"] else w)
+        elif w:
+            i = rng.randrange(len(w))
+            out.append(w[:i] + [rng.choice(spec["terms"])] + w[i + 1:])
+    seen, res = set(), []
+    for w in out:
+        if vkey(w) not in seen:
+            seen.add(vkey(w))
+            res.append(w)
+    return res
